@@ -85,8 +85,8 @@ namespace detail
 		template<typename genType>
 		GLM_FUNC_QUALIFIER static genType call(genType Source, genType Multiple)
 		{
-			genType Tmp = Source - genType(1);
-			return Tmp + (Multiple - (Tmp % Multiple));
+			genType const Remainder = Source % Multiple;
+			return Remainder ? static_cast<genType>(Source + (Multiple - Remainder)) : Source;
 		}
 	};
 
